@@ -904,6 +904,8 @@ def check_native_init(ctx, prog):
                         break
                     if e.get('k') == 'bin' and e.get('op') == '=' and strip_lv(e['x']).get('k') == 'mem' and strip_lv(e['x']).get('f') == fld:
                         done = True
+                    if e.get('k') == 'call' and e.get('op') == '=' and e.get('obj') is not None and strip_lv(e['obj']).get('k') == 'mem' and strip_lv(e['obj']).get('f') == fld:
+                        done = True         # assignment of a structure (`_mutex = mutex_init`): the implicit operator=
                     if e.get('k') == 'call' and ((e.get('fn') or '').endswith('_init') or (e.get('fn') or '').startswith(('Initialize', 'Create'))):
                         for a in e.get('a', []):
                             a_ = strip(a)
